@@ -433,4 +433,14 @@ def run(ctx):
             ctx.samples.append(info["sample"])
         return info
 
+    from ..common import run_systematic
+    from ..gen.templates import single_step_cases
+
+    quick = ctx.tier == "quick"
+
+    def strip(cases):
+        for c in cases:
+            yield {"prog": c["prog"], "steps": c["steps"]}
+
+    run_systematic(ctx, strip(single_step_cases(names, None, params=(0, 1) if quick else (0, 1, 2, 5, 7), sites=4 if quick else 8, extra=[0])), guarded(ctx, chk), keep_one_in=6 if quick else 1, label="template-single-steps")
     run_cases(ctx, case_strategy(6 if ctx.tier == "quick" else 12, names), guarded(ctx, chk), ctx.budget(800, 40000))
